@@ -666,6 +666,13 @@ example : needsConversionFull [""] [("", 17)] 18 = true ∧
 theorem generated_adapt_decision : Generated.InlineFacts.adaptShape = adaptShapeModelled := by
   decide
 
+/-- **`generated_inline_members`** (tie G): the methods, properties, class-level attributes of `_Inline` and
+    every attribute write on the node object (in its methods and in `adapt_inline`), re-extracted on this
+    run, are exactly the ones the model accounts for: a new override, a cache on the node (the history
+    class: remembered conversions) or a class-level mutable attribute breaks this whatever is generated. -/
+theorem generated_inline_members : Generated.InlineFacts.inlineMembers = inlineMembersModelled := by
+  decide
+
 /-- `node.model` after `adapt_inline` is the object it was before, whether `to_onnx` raises or not
     (for the statement list extracted from `_adapt.adapt_inline` on this run; C12 relies on it) -/
 theorem adapt_restores_model {α : Type} (base target junk : α) (emitRaises : Bool) :
